@@ -66,6 +66,14 @@ def run(prog, rep):
     rep.rule("C01-R5", "every driver passes compute_steady_states(graph) of the evaluated graph to eval_node")
     pipelines.check_steady_pipeline(prog, rep, "C01-R5")
     rep.floor("C01-R5", 20)
+    # a value served from the cache is the value of this sub-formula: reader and writer agree on the key, and a duplicate is recorded only
+    # when renaming on a hit is sound (at most one variable) - shared with C04-R2
+    import cacheproto
+    rep.rule("C01-R6", "cached values belong to the sub-formula they are served for (key recipe, one-variable limit)")
+    sub = type(rep)("C01k")
+    key = cacheproto.check_eviction_and_counter(prog, sub, "X", en)
+    cacheproto.check_key_recipe(prog, rep, "C01-R6", en, key)
+    rep.floor("C01-R6", 2)
     eng = terms.Engine(prog, inline=True)
     for f in prog.lib_fns():
         if f.path.startswith(E.OPS):
